@@ -69,6 +69,13 @@ class Run:
                 if v is None or not re.search(pat, str(v)):
                     ok = False
                     break
+            if ok and m and k.get("input_pred"):
+                # optional predicate over the failing input descriptor (a Python expression over `desc`)
+                try:
+                    desc = json.loads(facts.get("input", "null"))
+                    ok = bool(eval(k["input_pred"], {"desc": desc}))
+                except Exception:
+                    ok = False
             if ok and m:
                 return k
         return None
